@@ -1,6 +1,6 @@
 SPECIFICATION Spec
 CONSTANTS
-  Graphs <- Chains
+  Graphs <- ChainsAndFans
   L = 13
 INVARIANTS DepthInv Emit
 PROPERTY Termination
